@@ -88,7 +88,11 @@ def check(prop, tier, replay=None):
             if r['pushed'] and not r['shardRunsCoordinatorConfig']:
                 violations.append(dict(sig=dict(which='push-does-not-deliver-the-coordinators-configuration'), replay=dict(property=prop, protocol=r),
                                        text='after the push of an edit of %s the shard does not hold the coordinator\'s content' % r['path']))
-            if r['shardRunsCoordinatorConfig'] and (r['pushedAgain'] or not r['treatedInSync2']):
+            if not r.get('prometheusRanCoordinatorConfigWhenTreatedInSync2', True):
+                violations.append(dict(sig=dict(which='in-sync-while-prometheus-runs-another-configuration'), replay=dict(property=prop, protocol=r),
+                                       text='the push of an edit of %s was answered with an error (the reload of Prometheus failed); in the next cycle the shard reports the '
+                                            'coordinator\'s hash and is given %s while its Prometheus still runs the old configuration' % (r['path'], r['reqs2'])))
+            if r['shardRunsCoordinatorConfig'] and (r['pushedAgain'] or not r['treatedInSync2']) and not r.get('reloadFailedAtPush'):
                 violations.append(dict(sig=dict(which='same-configuration-not-in-sync', extra=r['withExtraConfig']), replay=dict(property=prop, protocol=r),
                                        text='the shard holds exactly the coordinator\'s configuration (edit of %s%s) and is still treated as out of sync in the next cycle: %s' % (
                                            r['path'], ', stop reason set before the reload' if r['withExtraConfig'] else '', r['reqs2'])))
